@@ -252,7 +252,7 @@ impl Sat {
       .parse::<f64>()
       .map_err(|source| ErrorKind::ParseFloat { source }.error(percentile))?;
 
-    if percentile < 0.0 {
+    if !percentile.is_finite() || percentile < 0.0 {
       return Err(ErrorKind::Percentile.error(percentile_string));
     }
 
